@@ -27,7 +27,7 @@ Definition res_map {A B} (f : A -> B) (r : res A) : res B := match r with ROk x 
 Definition num_nodes {V} (a : arena V) (troot node : nat) : res nat := res_map (@length nd) (dfs_iter a troot node).
 (* self.dfs_iter().map(|data| data.depth).max().unwrap_or(0) *)
 Definition depth_of {V} (a : arena V) (troot : nat) : res nat :=
-  res_map (fun l => list_max (map n_depth l)) (dfs_iter a troot troot).
+  res_map (fun l => lmax (map n_depth l)) (dfs_iter a troot troot).
 (* self.is_leaf(idx).unwrap_or(false) *)
 Definition leafb {V} (a : arena V) (i : nat) : bool := match aget a i with Some c => c_leaf c | None => false end.
 (* depths of the terminals in dfs order: what depth_stats feeds into Min / Max / Variance *)
@@ -53,10 +53,11 @@ Definition sample_var (l : list nat) : option Qc :=
     if length l <? 2 then None
     else Some (qsum (map (fun x => (qnat x - mu) * (qnat x - mu)) l) / qnat (length l - 1))%Qc
   end.
+Definition minn (a b : nat) : nat := if a <=? b then a else b.
 Definition list_min (l : list nat) : option nat :=
-  match l with [] => None | x :: l' => Some (fold_left Nat.min l' x) end.
+  match l with [] => None | x :: l' => Some (fold_left minn l' x) end.
 Definition list_max_opt (l : list nat) : option nat :=
-  match l with [] => None | _ => Some (list_max l) end.
+  match l with [] => None | _ => Some (lmax l) end.
 
 (* path_to_node: Err if the index is not in the arena; else follow the parent pointers, looking the label up in
    the parent's children by linear search (panic if the parent does not list the node; Err(InvalidIndex) if a
